@@ -153,7 +153,15 @@ Definition ok_obs (gs : list cfg) (pre : list out) (steps : list stepio) : bool 
 (* ---- one correspondence case, as written by the Go driver ---- *)
 Record ccfg := mkCfg { c_sd : bool; c_conv : bool }.
 Definition cfg_of (c : ccfg) : cfg := mkCfgC (c_sd c) (if c_conv c then Some conv4 else None).
-Record case := { c_cfgs : list ccfg; c_pre : list out; c_steps : list stepio }.
+(* the documented precondition on the datastore: a List that returns items carries a usable revision; the code refuses
+   to go on (panics) exactly when it does not *)
+Definition spec_panics (r : resp) : bool :=
+  match r with RListOk (_ :: _) lrev => N.eqb lrev 0 || N.eqb lrev rev_empty | _ => false end.
+Definition step_resp (s : stepio) : resp := match s with St _ _ r _ => r end.
+
+(* c_panic = Some (St i t r outs): after c_steps, cache i was given r, logged the BUG panic and died; outs are the
+   callbacks made before that *)
+Record case := { c_cfgs : list ccfg; c_pre : list out; c_steps : list stepio; c_panic : option stepio }.
 
 Definition id_ord (m : rmap) : rmap := m.
 
@@ -168,7 +176,15 @@ Definition check_case (c : case) : bool * bool :=
   let gs := map cfg_of (c_cfgs c) in
   let '(s0, pre) := syncer_init gs in
   (match syncer_run id_ord gs s0 (c_steps c) with
-   | Some (_, mo) => outs_eqb pre (c_pre c) && steps_agree (c_steps c) mo
+   | Some (s, mo) =>
+       outs_eqb pre (c_pre c) && steps_agree (c_steps c) mo &&
+       match c_panic c with
+       | None => true
+       | Some (St i t r outs) =>
+           match syncer_panic id_ord gs s i t r with Some o => outs_eqb (canon o) (canon outs) | None => false end
+       end
    | None => false
    end,
-   ok_obs gs (c_pre c) (c_steps c)).
+   ok_obs gs (c_pre c) (c_steps c)
+   && forallb (fun s => negb (spec_panics (step_resp s))) (c_steps c)
+   && match c_panic c with None => true | Some s => spec_panics (step_resp s) end).
